@@ -103,6 +103,24 @@ def to_text(expr):
     return StringifyMapper()(expr)
 
 
+_LONG_LIVED = {}
+
+
+def instance_history_failure(expr, text, bs):
+    from pymbolic.mapper.stringifier import PREC_NONE, StringifyMapper
+    from pymbolic.parser import Parser
+    from pymbolic.primitives import Expression
+    printer = _LONG_LIVED.setdefault("printer", StringifyMapper())
+    t2 = printer(expr, PREC_NONE) if isinstance(expr, Expression) else printer(expr)
+    if t2 != text:
+        return f"a long-lived StringifyMapper prints {t2!r}, a fresh one {text!r}"
+    b2 = to_spec(Parser()(text))
+    if b2 != bs:
+        return (f"the long-lived pymbolic.parse reads {text!r} as {show(bs)}, a fresh Parser as "
+                f"{show(b2)}")
+    return None
+
+
 def roundtrip(spec):
     """-> (kind or None, detail)"""
     from pymbolic import parse
@@ -123,6 +141,16 @@ def roundtrip(spec):
     except Exception as e:  # noqa: BLE001
         return "noparse", f"str -> {text!r}; parse raised {type(e).__name__}: {e}"[:300], text
     bs = to_spec(back)
+    # instance histories: str() makes a fresh printer and pymbolic.parse is ONE long-lived parser;
+    # a printer that lives as long as this worker and a parser made for this text must agree
+    try:
+        h = instance_history_failure(expr, text, bs)
+    except RecursionError:
+        raise
+    except Exception as e:  # noqa: BLE001
+        h = f"long-lived printer / fresh parser raised {e!r}"
+    if h:
+        return "instance-history", h, text
     if ac_flatten(bs) != ac_flatten(spec):
         vd = None
         try:
@@ -160,6 +188,9 @@ class C06(Check):
     assumptions = [
         "degenerate arities (0/1-child sums, products and slices) are not part of the printable "
         "fragment; a None hole only occurs inside a Slice; a Slice is not a bound of another Slice",
+        "a StringifyMapper that lives as long as the worker process must print what str() prints, "
+        "and a fresh Parser must read what the long-lived pymbolic.parse reads (instance history = "
+        "the items this worker handled before)",
         "value comparison (only used to classify a structural mismatch) runs on the box "
         "{-2, 1, 3, 1/2}^vars",
     ]
